@@ -320,15 +320,20 @@ class JrpFamily(RpFamily):
         from pyunicorn.timeseries import JointRecurrencePlot
         return JointRecurrencePlot
 
+    @staticmethod
+    def pair(mode, v):
+        """(x, y) settings of a token; token 3 = x of token 1 with y of token 2."""
+        if v == 3:
+            return (RP_PARAM[mode][1], RP_PARAM[mode][2] * 1.25)
+        return (RP_PARAM[mode][v], RP_PARAM[mode][v] * 1.25)
+
     def build(self, a):
-        p = RP_PARAM[a["MODE"]][a["P"]]
         return self.cls()(SERIES.copy(), SERIES_Y.copy(), metric=("supremum", "supremum"), lag=1,
-                          silence_level=3, **{a["MODE"]: (p, p * 1.25)})
+                          silence_level=3, **{a["MODE"]: self.pair(a["MODE"], a["P"])})
 
     def mutate(self, obj, m, v):
         mode = m[len("set_"):].replace("fixed_", "")
-        p = RP_PARAM[mode][v]
-        getattr(obj, m)((p, p * 1.25))
+        getattr(obj, m)(self.pair(mode, v))
 
     def names(self, obj):
         return [n for n in netcommon.discover(obj, extra_skip=RP_SKIP)
@@ -492,8 +497,8 @@ class HavlinFamily(TsonisFamily):
 class IsrnFamily:
     """Inter-system recurrence network: both setters rebuild the whole network."""
     name = "isrn"
-    PARAM = {"threshold": {1: (0.6, 0.7, 0.8), 2: (1.0, 0.9, 1.2)},
-             "recurrence_rate": {1: (0.2, 0.3, 0.25), 2: (0.4, 0.35, 0.5)}}
+    PARAM = {"threshold": {1: (0.6, 0.7, 0.8), 2: (1.0, 0.9, 1.2), 3: (0.6, 1.1, 0.8), 4: (0.6, 0.7, 1.3)},
+             "recurrence_rate": {1: (0.2, 0.3, 0.25), 2: (0.4, 0.35, 0.5), 3: (0.2, 0.45, 0.25), 4: (0.2, 0.3, 0.45)}}
 
     def build(self, a):
         from pyunicorn.timeseries import InterSystemRecurrenceNetwork
